@@ -4,7 +4,7 @@ cd "$(dirname "$0")/.."
 for id in $(python3 -c "import json; print(' '.join(c['property_id'] for c in json.load(open('MANIFEST.json'))['checks']))"); do
   if [ -n "$1" ] && ! echo " $* " | grep -q " $id "; then continue; fi
   start=$(date +%s)
-  ./check $id --tier thorough --no-evidence > thorough-$id.log 2>&1
+  VERIF_JOBS=${VERIF_JOBS:-16} ./check $id --tier thorough --no-evidence > thorough-$id.log 2>&1
   echo "$id exit=$? $(( $(date +%s) - start ))s $(tail -1 thorough-$id.log)"
   grep "^INCONCLUSIVE\|^HARNESS\|^VIOLATION" thorough-$id.log | cut -c1-160 | head -12
 done
